@@ -103,6 +103,7 @@ def zeros(shape, dtype=float64):
 def zeros_like(a): return Arr([0.0]*len(a), a.dtype)
 def empty_like(a): return zeros_like(a)
 def array(x, dtype=float64): return Arr(x, int64 if dtype is int else dtype)
+def arange(n): return Arr(list(range(n)), int64)
 def concatenate(xs):
     r=[]; [r.extend(a.items) for a in xs]; return Arr(r)
 def broadcast_to(x, shape): return x if isinstance(x,Arr) else Arr([x]*shape[0])
